@@ -457,6 +457,57 @@ def h_amalgamate(ctx, case):
     return 'ok'
 
 
+def h_copy_h5_file(ctx, case):
+    """h5_utils.copy_h5_excluding_data on h5ad files as anndata writes
+    them (validation and the statistics merge copy whole files with it):
+    the copy reads back equal to the original"""
+    import os
+    import shutil
+    import anndata
+    import pandas as pd
+    import scipy.sparse as sp
+    from harness.common import sandbox_root
+    import cell_type_mapper.utils.h5_utils as H5U
+    d = os.path.join(sandbox_root(), 'copy_h5')
+    shutil.rmtree(d, ignore_errors=True)
+    os.makedirs(d)
+    kind = ['dense', 'csr', 'csc'][ctx.choice('encoding', 3)]
+    x = np.array([[1.5, 0, 2.0], [0, 0, 0], [0, 4.25, 0]])
+    if ctx.flag('x_without_stored_entries'):
+        x = np.zeros((3, 3))
+    lay = np.array([[0, 7.0, 0], [1.0, 0, 0], [0, 0, 3.0]])
+    if ctx.flag('layer_without_stored_entries'):
+        lay = np.zeros((3, 3))
+    conv = {'dense': (lambda m: m), 'csr': sp.csr_matrix,
+            'csc': sp.csc_matrix}[kind]
+    a = anndata.AnnData(X=conv(x), layers={'raw': conv(lay)},
+                        obs=pd.DataFrame({'k': ['u', 'v', 'u']},
+                                         index=['a', 'b', 'c']),
+                        var=pd.DataFrame(index=['g0', 'g1', 'g2']))
+    src = os.path.join(d, 'src.h5ad')
+    kw = {'compression': 'gzip'} if ctx.flag('compressed') else {}
+    a.write_h5ad(src, **kw)
+    dst = os.path.join(d, 'dst.h5ad')
+    try:
+        H5U.copy_h5_excluding_data(src_path=src, dst_path=dst)
+    except Exception as e:
+        ctx.exception(e)
+        return 'EXC ' + type(e).__name__
+    ctx.reach('copied')
+    b = anndata.read_h5ad(dst)
+
+    def dn(m):
+        return m.toarray() if hasattr(m, 'toarray') else np.asarray(m)
+    ctx.check(bool(np.array_equal(dn(b.X), x)) and
+              bool(np.array_equal(dn(b.layers['raw']), lay)),
+              'X and the layer of the copy equal the original')
+    ctx.check(list(b.obs.index) == ['a', 'b', 'c'] and
+              list(b.obs['k']) == ['u', 'v', 'u'] and
+              list(b.var.index) == ['g0', 'g1', 'g2'],
+              'obs / var of the copy equal the original')
+    return 'ok'
+
+
 AMAL = {}
 
 
@@ -630,6 +681,13 @@ BY_WAY = dict(
     expect_reach=['transposed'])
 
 HARNESSES = [
+    Harness('copy_h5_file', h_copy_h5_file, cases=[{}],
+            funcs=['h5_utils.copy_h5_excluding_data', '_copy_h5_element',
+                   '_get_slices_for_copy'],
+            stubs=['none (real h5py / anndata files)'],
+            bounds='3x3 h5ad written by anndata: dense / CSR / CSC, X and a '
+                   'layer each with or without stored entries, gzip or not',
+            expect_reach=['copied']),
     Harness('amalgamate_h5ad_files', h_amalgamate_files,
             setup=setup_amal_files, cases=[{'pieces': 2}],
             thorough_cases=[{'pieces': 3}, {'pieces': 2,
